@@ -74,6 +74,19 @@ class Module:
             # keep the first definition (generic instances print once)
             if name not in self.fns:
                 self.fns[name] = Fn(name, m.group(0), blocks, locals_, len(args))
+        self.consts = {}
+        for m in re.finditer(r'^(?:const|static) (.+?): (.*?) = \{\n', text, re.M):
+            start = m.end()
+            end = text.find('\n}\n', start)
+            body = text[start:end]
+            blocks = {}
+            for bm in re.finditer(r'^    (bb\d+)( \(cleanup\))?: \{\n(.*?)^    \}', body, re.M | re.S):
+                lines = [l.strip() for l in bm.group(3).split('\n') if l.strip()]
+                blocks[bm.group(1)] = (lines, bool(bm.group(2)))
+            self.consts[m.group(1)] = Fn(m.group(1), m.group(0), blocks, {}, 0)
+        self.simple_consts = {}
+        for m in re.finditer(r'^const (.+?): (.*?) = const (.*);$', text, re.M):
+            self.simple_consts[m.group(1)] = m.group(3)
 
     def get(self, name):
         return self.fns.get(name)
@@ -240,6 +253,24 @@ VARIANTS = {'Continue': 0, 'Break': 1, 'None': 0, 'Some': 1, 'Ok': 0, 'Err': 1}
 BIN = {'Lt': lambda a, b: a < b, 'Le': lambda a, b: a <= b, 'Gt': lambda a, b: a > b, 'Ge': lambda a, b: a >= b, 'Eq': lambda a, b: a == b, 'Ne': lambda a, b: a != b}
 
 
+CURRENT = [None]
+
+
+def lookup_const(name):
+    eng = CURRENT[0]
+    if eng is None:
+        return None
+    parts = name.split('::')
+    for mod in eng.modules:
+        for k in range(len(parts)):
+            cand = '::'.join(parts[k:])
+            if cand in mod.consts:
+                return ('body', mod.consts[cand])
+            if cand in mod.simple_consts:
+                return ('simple', mod.simple_consts[cand])
+    return None
+
+
 def operand(path, s):
     s = s.strip()
     if s.startswith(('copy ', 'move ')):
@@ -252,9 +283,30 @@ def operand(path, s):
             return const_obj(int(m.group(1).replace('_', '')))
         if c in ('true', 'false'):
             return const_obj(1 if c == 'true' else 0)
+        lc = lookup_const(c)
+        if lc is not None and lc[0] == 'simple':
+            return operand(path, 'const ' + lc[1])
+        if lc is not None and lc[0] == 'body' and len(path.frames) < 8:
+            eng = CURRENT[0]
+            saved_done = eng.done
+            eng.done = []
+            try:
+                res = eng.run_fn(lc[1], path, [])
+            finally:
+                eng.done = saved_done
+            if len(res) == 1 and res[0][0] is path:
+                rv = res[0][1]
+                # the promoted value lives in the (popped) const frame: materialise it
+                if isinstance(rv, Ref):
+                    rv = path_deref_frame(path, rv, lc[1])
+                return rv
         o = Obj('const:' + c)
         return o
     raise Exception('operand ' + s)
+
+
+def path_deref_frame(path, ref, fn):
+    return getattr(path, '_last_const_frame', {}).get(ref.place.local, Obj('constref'))
 
 
 class Unsupported(Exception):
@@ -320,6 +372,7 @@ class Engine:
                         continue
                     if ln == 'return':
                         rv = p.read(P('_0'))
+                        p._last_const_frame = p.frames[-1]
                         p.frames.pop()
                         results.append((p, rv))
                         ended = True
@@ -533,9 +586,9 @@ class Engine:
                     val.fields[i_] = o
                     val.fields[('name', fm.group(1))] = o
             return val
-        m = re.match(r'([\w:]+)::(\w+)$', rv)
+        m = re.match(r'(?:([\w:]+)::)?(\w+)$', rv)
         if m and self.variant_index is not None:
-            idx = self.variant_index(m.group(1), m.group(2))
+            idx = self.variant_index(m.group(1) or '', m.group(2))
             if idx is not None:
                 return enum_obj(idx)
         self.unsupported.append(rv[:80])
@@ -546,6 +599,7 @@ class Engine:
     def relation(self, fn, args):
         """Runs `fn` from a fresh path; returns all finished paths (Ok/Err returns and panics)."""
         self.done = []
+        CURRENT[0] = self
         p = Path()
         p.frames = []
         res = self.run_fn(fn, p, args)
